@@ -41,17 +41,21 @@ func runC17(c *Ctx, r *Rec) {
 	}
 	st := structOf(it)
 	if st == nil {
-		r.undecided("bind", "agent.iterator", "", "iterator type is not a struct")
+		r.skip("bind", "agent.iterator", "", "iterator type is not a struct")
 		return
 	}
 	// bind fields by role: the slice field is the snapshot; among int fields the one
 	// assigned outside the constructor literal is the slot, the other the size.
 	var valuesF, sizeF, slotF *types.Var
+	nSlices := 0 // slice fields beyond the first: which of them is the snapshot is not known
 	written := fieldsWrittenInMethods(c, info, it)
 	for i := 0; i < st.NumFields(); i++ {
 		f := st.Field(i)
 		switch u := f.Type().Underlying().(type) {
 		case *types.Slice:
+			if valuesF != nil {
+				nSlices++
+			}
 			valuesF = f
 		case *types.Basic:
 			if u.Kind() == types.Int {
@@ -251,12 +255,27 @@ func runC17(c *Ctx, r *Rec) {
 			case onlyForeign(undec):
 				r.skip("D1-cursor", construct, c.pos(fd.Pos()), strings.Join(dedup(undec), " | "))
 			case len(undec) > 0:
-				r.undecided("D1-cursor", construct, c.pos(fd.Pos()), strings.Join(dedup(undec), " | "))
+				r.skip("D1-cursor", construct, c.pos(fd.Pos()), strings.Join(dedup(undec), " | "))
 			default:
 				r.ok("D1-cursor", construct, c.pos(fd.Pos()), fmt.Sprintf("%d paths conform to the cursor specification on all integers with 0<=slot<=size; invariant preserved; accesses in bounds", len(paths)))
 			}
 		}
 		r.floor("D1-cursor", 10)
+	}
+	if nSlices > 0 {
+		// several slice fields (the snapshot and windows into it, say): among the ones that are
+		// never written, the snapshot; a design of its own otherwise
+		var frozen []*types.Var
+		for i := 0; i < st.NumFields(); i++ {
+			if _, isSlice := st.Field(i).Type().Underlying().(*types.Slice); isSlice && !written[st.Field(i)] {
+				frozen = append(frozen, st.Field(i))
+			}
+		}
+		valuesF = nil
+		if len(frozen) == 1 {
+			valuesF = frozen[0]
+		}
+		slotF = nil
 	}
 	if valuesF == nil || slotF == nil {
 		// the fields are private: the cursor rules are bound to the array-and-slot design; the
@@ -358,7 +377,7 @@ func checkIteratorSnapshots(c *Ctx, r *Rec) {
 		sf := fa.byFD[fd]
 		construct := c.fdName(fd)
 		if sf == nil || len(fa.sum[sf].freshRet) != 1 {
-			r.undecided("D2-snapshot", construct, c.pos(fd.Pos()), "no SSA summary for this method")
+			r.skip("D2-snapshot", construct, c.pos(fd.Pos()), "no SSA summary for this method")
 			continue
 		}
 		n++
